@@ -122,6 +122,10 @@ func c08Instants() [][2]time.Time {
 
 var c08Texts = []string{"a", " a<b&c ", "", "é"}
 
+// spellings of an XML content type a conformant client may send (media types and parameter names are
+// case-insensitive, charset values too; parameter values may be quoted)
+var xmlContentTypes = []string{"application/xml; charset=utf-8", "application/xml", "text/xml", "application/xml; charset=UTF-8", `text/xml; charset="UTF-8"`, "Application/XML;charset=Utf-8", "text/xml; Charset=utf-8"}
+
 func c08TextMatches() []*caldav.TextMatch {
 	out := []*caldav.TextMatch{nil}
 	for _, t := range c08Texts {
@@ -356,7 +360,7 @@ func c08JudgeB(c c08BCase) (clause, detail string) {
 	l := c12LayoutFor("")
 	b := &harness.CalBackend{Principal: l.Principal, HomeSet: l.HomeSet, Calendars: []caldav.Calendar{{Path: l.Coll1}},
 		Objects: []caldav.CalendarObject{{Path: "/u/c/k1/o1.ics", ETag: "e", Data: harness.SampleCalendar("1", "s")}}}
-	resp := harness.Serve(&caldav.Handler{Backend: b}, harness.Req{Method: "REPORT", Path: l.Coll1, Header: map[string]string{"Content-Type": "application/xml; charset=utf-8", "Depth": "1"}, Body: string(body)})
+	resp := harness.Serve(&caldav.Handler{Backend: b}, harness.Req{Method: "REPORT", Path: l.Coll1, Header: map[string]string{"Content-Type": xmlContentTypes[len(body)%len(xmlContentTypes)], "Depth": "1"}, Body: string(body)})
 	if resp.Panic != "" {
 		return "panic", resp.Panic
 	}
